@@ -96,6 +96,7 @@ func runC14(c *ctx, r *Report) error {
 	r.Rule = fmt.Sprintf("(1) EVERY action spec of the bundled data set (%d, enumerated completely) × 5 call shapes (no inputs; all inputs in random letter case; all + 2 extra names; a random subset; required ones only) + a probe of every declared output and one undeclared output through steps.<id>.outputs.<name>; (2) %d random local action interfaces (action.yml in a scratch repository: required / not required × with / without default, outputs) × call shapes; (3) %d random local reusable-workflow interfaces (inputs with types, required × default, secrets, outputs) × call shapes incl. `secrets: inherit`, typed literal and expression values, needs.<job>.outputs.<name> probes; the real linter's diagnostics are compared with the model (calls action / calls workflow) and with expectations computed from the interface (declared / required-without-default / supplied); non-trivial = distinct (interface, call) pairs", len(specs), nLocal, nLocal)
 
 	// (1) bundled actions
+	var bundledSrcs []string
 	for _, spec := range specs {
 		meta := actionlint.PopularActions[spec]
 		ids := make([]string, 0, len(meta.Inputs))
@@ -136,6 +137,7 @@ func runC14(c *ctx, r *Report) error {
 				}
 			}
 			src := sb.String()
+			bundledSrcs = append(bundledSrcs, src)
 			errs, err := lintSrc("b.yaml", src)
 			r.Evaluations++
 			if err != nil {
@@ -499,6 +501,25 @@ func runC14(c *ctx, r *Report) error {
 	}
 	r.Exhaustive = true
 	if _, err = b.flush(c, r); err != nil {
+		return err
+	}
+	// AL.Props.C14Rules (undefined_reported / undefined_only / missing_only) is about AL.Rules.checkActionInputs over the table
+	// regenerated from PopularActions: every bundled-action call above also goes through the whole-linter model (`lintwf`)
+	if err := lwTie(c, r, bundledSrcs, "call of a bundled action", func(cs Case) (string, string) {
+		pick := func(s string) string {
+			var out []string
+			for _, d := range strings.Split(s, ";") {
+				if f := strings.SplitN(d, ":", 4); len(f) == 4 && f[2] == "action" {
+					out = append(out, d)
+				}
+			}
+			return strings.Join(out, ";")
+		}
+		if pick(cs.Impl) != pick(cs.Model) {
+			return "action-diagnostics-differ-from-proved-model", "the `action` diagnostics of this call differ from the model in which an input is reported iff undeclared and a required input iff not supplied"
+		}
+		return "", ""
+	}); err != nil {
 		return err
 	}
 	// `steps.<id>.outputs.<name>` of bundled actions inside whole workflows: the model AL.Visit keeps the declared outputs of
